@@ -470,6 +470,72 @@ m("C07","buystorage-allows-smaller-plan","x/storage/keeper/msg_server_buy_storag
 m("C07","payonce-charges-plan","x/storage/keeper/msg_server_post_file.go",
   '		return res, nil\n	}\n\n	// traditional storage plan payment info','		if pi, ok := k.GetStoragePaymentInfo(ctx, msg.Creator); ok {\n			pi.SpaceUsed += totalSize\n			k.SetStoragePaymentInfo(ctx, pi)\n		}\n		return res, nil\n	}\n\n	// traditional storage plan payment info',"C07/R2","not-on-pay-once-branch")
 
+# ---- C20
+m("C20","addtomerkle-separator","x/filetree/types/merkle-paths.go",
+  '	k := fmt.Sprintf("%s%s", total, append)\n\n	h := sha256.New()','	k := fmt.Sprintf("%s/%s", total, append)\n\n	h := sha256.New()',"C20/R1","filetree:combiner")
+m("C20","merklepath-swapped-operands","x/filetree/types/merkle-paths.go",
+  'k := fmt.Sprintf("%s%s", total, b)','k := fmt.Sprintf("%s%s", b, total)',"C20/R1","fold-step")
+m("C20","merklepath-raw-segment","x/filetree/types/merkle-paths.go",
+  'k := fmt.Sprintf("%s%s", total, b)','k := fmt.Sprintf("%s%s", total, chunk)\n		_ = b',"C20/R1","fold-step")
+m("C20","merklepath-trim-prefix","x/filetree/types/merkle-paths.go",
+  'trimPath := strings.TrimSuffix(path, "/")','trimPath := strings.TrimPrefix(path, "/")',"C20/R1","fold-step")
+m("C20","merklepath-start-nonempty","x/filetree/types/merkle-paths.go",
+  'total := ""\n\n	for _, chunk','total := "s"\n\n	for _, chunk',"C20/R1","fold-start")
+m("C20","postfile-returns-other-path","x/filetree/keeper/msg_server_post_file.go",
+  'return &types.MsgPostFileResponse{Path: fullMerklePath}, nil','return &types.MsgPostFileResponse{Path: msg.HashChild}, nil',"C20/R2","returned-path")
+m("C20","postfile-address-swapped","x/filetree/keeper/msg_server_post_file.go",
+  'fullMerklePath := types.AddToMerkle(msg.HashParent, msg.HashChild)','fullMerklePath := types.AddToMerkle(msg.HashChild, msg.HashParent)',"C20/R2","combiner-arguments")
+m("C20","postfile-stores-parent-address","x/filetree/keeper/msg_server_post_file.go",
+  'Address:        fullMerklePath,','Address:        msg.HashParent,',"C20/R2","stored-address")
+m("C20","merklepath-sha512-step","x/filetree/types/merkle-paths.go",
+  '		h1 := sha256.New()','		h1 := sha256.New224()',"C20/R1","fold-step")
+
+# ---- C02
+m("C02","verifier-leaf-separator","x/storage/types/file_deal.go",
+  'fmt.Sprintf("%d%x", chunk, item)','fmt.Sprintf("%d:%x", chunk, item)',"C02/R1","leaf-encoding")
+m("C02","builder-leaf-raw-bytes","x/storage/utils/trees.go",
+  'hash.Write([]byte(fmt.Sprintf("%d%s", index, hexedData)))','hash.Write([]byte(fmt.Sprintf("%d%s", index, b)))\n\t\t_ = hexedData',"C02/R1","leaf-encoding")
+m("C02","verifier-tree-hash-sha256","x/storage/types/file_deal.go",
+  'merkletree.VerifyProofUsing(hashName, false, &proof, [][]byte{f.Merkle}, sha3.New512())','merkletree.VerifyProofUsing(hashName, false, &proof, [][]byte{f.Merkle}, sha3.New256())',"C02/R1","tree-hash")
+m("C02","verifier-salted","x/storage/types/file_deal.go",
+  'merkletree.VerifyProofUsing(hashName, false,','merkletree.VerifyProofUsing(hashName, true,',"C02/R1","salted-flag")
+m("C02","draw-without-pieces-guard","x/storage/types/file_deal.go",
+  """func (f *UnifiedFile) ResetChunkWithProof(ctx sdk.Context, proof *FileProof, chunkSize int64) error {
+	pieces := f.FileSize / chunkSize
+	d := f.FileSize % chunkSize
+	if d == 0 { // handle edge case where there is exactly full chunks with no extra bits
+		pieces--
+	}
+	var newChunk int64
+	if pieces > 0 {""","""func (f *UnifiedFile) ResetChunkWithProof(ctx sdk.Context, proof *FileProof, chunkSize int64) error {
+	pieces := f.FileSize / chunkSize
+	d := f.FileSize % chunkSize
+	if d == 0 { // handle edge case where there is exactly full chunks with no extra bits
+		pieces--
+	}
+	var newChunk int64
+	if pieces >= 0 {""","C02/R2","draw-bounded")
+m("C02","chunksize-validator-allows-zero","x/storage/types/params.go",
+  """func validateChunkSize(i interface{}) error {
+	v, ok := i.(int64)
+	if !ok {
+		return fmt.Errorf("invalid parameter type: %T", i)
+	}
+
+	if v < 1 {""","""func validateChunkSize(i interface{}) error {
+	v, ok := i.(int64)
+	if !ok {
+		return fmt.Errorf("invalid parameter type: %T", i)
+	}
+
+	if v < 0 {""","C02/R2","chunk-size-positive")
+m("C02","chunksize-from-message","x/storage/keeper/msg_server_postproof.go",
+  'chunkSize := k.GetParams(ctx).ChunkSize','chunkSize := k.GetParams(ctx).ChunkSize + msg.ToProve',"C02/R2","chunk-size-positive")
+m("C02","remove-proven-prover","x/storage/keeper/rewards.go",
+  'if !proven && !file.IsYoung(currentHeight) { // if file wasn\'t proven, and is old, we burn it.','if (!proven || found) && !file.IsYoung(currentHeight) { // if file wasn\'t proven, and is old, we burn it.',"C02/R3","rewards:removal-only-on-miss")
+m("C02","burn-in-first-window","x/storage/keeper/rewards.go",
+  'if !proven && !file.IsYoung(currentHeight) { // if file wasn\'t proven, and is old, we burn it.','if !proven { // if file wasn\'t proven, and is old, we burn it.',"C02/R3","rewards:burn-only-on-miss")
+
 for x in M:
     d = os.path.join(os.path.dirname(os.path.abspath(__file__)), x["property"])
     os.makedirs(d, exist_ok=True)
